@@ -49,10 +49,10 @@ func Bool(b bool) *Val {
 	}
 	return &Val{Kind: KBool}
 }
-func Str(s string) *Val     { return &Val{Kind: KString, B: []byte(s)} }
-func Bytes(b []byte) *Val   { return &Val{Kind: KBytes, B: append([]byte{}, b...)} }
-func F32(f float32) *Val    { return &Val{Kind: KFloat, U: uint64(math.Float32bits(f))} }
-func F64(f float64) *Val    { return &Val{Kind: KDouble, U: math.Float64bits(f)} }
+func Str(s string) *Val      { return &Val{Kind: KString, B: []byte(s)} }
+func Bytes(b []byte) *Val    { return &Val{Kind: KBytes, B: append([]byte{}, b...)} }
+func F32(f float32) *Val     { return &Val{Kind: KFloat, U: uint64(math.Float32bits(f))} }
+func F64(f float64) *Val     { return &Val{Kind: KDouble, U: math.Float64bits(f)} }
 func MsgVal(m *Message) *Val { return &Val{Kind: KMessage, Msg: m} }
 func ListOf(f *Field, elems ...*Val) *Val {
 	return &Val{Kind: f.Kind, Card: Repeated, Msg: f.Msg, L: elems}
@@ -509,4 +509,31 @@ func scrubNegZero(v *Val) *Val {
 	}
 	walk(c)
 	return c
+}
+
+// Short is String with long runs of one character collapsed ("L"x16380), for messages meant for humans.
+func (v *Val) Short() string {
+	s := v.String()
+	if len(s) < 200 {
+		return s
+	}
+	var b strings.Builder
+	i := 0
+	for i < len(s) {
+		j := i
+		for j < len(s) && s[j] == s[i] {
+			j++
+		}
+		if j-i > 12 {
+			fmt.Fprintf(&b, "%c..x%d", s[i], j-i)
+		} else {
+			b.WriteString(s[i:j])
+		}
+		i = j
+	}
+	out := b.String()
+	if len(out) > 700 {
+		out = out[:700] + "..."
+	}
+	return out
 }
